@@ -1,6 +1,15 @@
-"""Built-in self-test: in-memory source variants (placeholder; filled in below)."""
+"""Built-in self-test of the thorough tier: (1) in-memory source variants - every seeded edit of the property must fire
+the named rule, every twin must stay silent; (2) whole-package equivalence transformations - the rules of the property
+must stay silent under each (only meaningful, and only run, when the tree itself raises no violation)."""
 
 
-def run_selftest(prop, program):
-    from . import variants
-    return variants.run_for(prop, program)
+def run_selftest(prop, program, clean=True):
+    from . import variants, equiv
+    a = variants.run_for(prop, program)
+    out = dict(a)
+    out['misses'] = list(a.get('misses', []))
+    if clean:
+        b = equiv.run_for(prop, program)
+        out.update({k: v for k, v in b.items() if k != 'misses'})
+        out['misses'] += list(b.get('misses', []))
+    return out
